@@ -530,6 +530,10 @@ func runC15(c *harness.Ctx) {
 		c.Violate("C15/client-factory-failed", "first start: ClientFactory: %v", err)
 		return
 	}
+	if t.Draw("concurrent", 6) == 5 {
+		runC15Concurrent(c, w)
+		return
+	}
 	// ---- history
 	maxSteps := 6
 	if c.Tier == "thorough" {
